@@ -148,7 +148,7 @@ def run(ctx):
 
 def replay(ctx, obj):
     case = obj["case"]
-    if "schedule" in case or "handover" in case:
+    if "schedule" in case or "handover" in case or case.get("kind") == "staged":
         return _handover.replay(ctx, obj)
     mo = lean_driver("Driver/Sys.lean", [case])[0]
     check_case(ctx, case, mo)
